@@ -57,6 +57,10 @@ enum Reached {
 struct St {
     at: Vec<Option<Reached>>,
     grant: Vec<bool>,
+    /// what the executor of the task has to do when it is let go: 0 go on, 1 panic, 2 suspend
+    order: Vec<u8>,
+    /// the request of the task is being abandoned: its points no longer block
+    abandoning: Vec<bool>,
     free: bool,
 }
 
@@ -68,10 +72,10 @@ struct Ctl {
 
 impl Ctl {
     /// task side: report the point and block until granted
-    fn at_point(&self, task: usize, pc: &str, q: usize) {
+    fn at_point(&self, task: usize, pc: &str, q: usize) -> u8 {
         let mut g = self.st.lock();
-        if g.free {
-            return;
+        if g.free || g.abandoning[task] {
+            return 0;
         }
         g.at[task] = Some(Reached::Point(pc.to_string(), q));
         self.cv.notify_all();
@@ -82,6 +86,15 @@ impl Ctl {
         if !g.free {
             g.at[task] = None;
         }
+        let o = g.order[task];
+        if o != 0 {
+            g.abandoning[task] = true;
+        }
+        o
+    }
+
+    fn abandon(&self, t: usize, order: u8) {
+        self.st.lock().order[t] = order;
     }
 
     fn done(&self, task: usize) {
@@ -168,7 +181,13 @@ fn run_case(rt: &tokio::runtime::Runtime, idx: usize, case: &Case, all: &mut Vec
     let ids: HashMap<qbice::query::QueryID, usize> = (0..nq).map(|i| (node_query_id(&prog, i), i + 1)).collect();
     let ntasks = case.roots.len();
     let ctl = Arc::new(Ctl {
-        st: Mutex::new(St { at: vec![None; ntasks + 1], grant: vec![false; ntasks + 1], free: false }),
+        st: Mutex::new(St {
+            at: vec![None; ntasks + 1],
+            grant: vec![false; ntasks + 1],
+            order: vec![0; ntasks + 1],
+            abandoning: vec![false; ntasks + 1],
+            free: false,
+        }),
         cv: Condvar::new(),
         watchdog,
     });
@@ -181,14 +200,12 @@ fn run_case(rt: &tokio::runtime::Runtime, idx: usize, case: &Case, all: &mut Vec
             }
             let Some(pc) = pc_of_label(label) else { return };
             let q = qbice::verif::current_query().and_then(|id| ids.get(&id).copied()).unwrap_or(0);
-            ctl1.at_point(task, pc, q);
+            let _ = ctl1.at_point(task, pc, q);
         })));
         let ctl2 = ctl.clone();
         *EXEC_POINT.write() = Some(Arc::new(move |n1: usize| {
             let task = TASK.with(Cell::get);
-            if task != usize::MAX {
-                ctl2.at_point(task, "exec", n1);
-            }
+            if task != usize::MAX { ctl2.at_point(task, "exec", n1) } else { 0 }
         }));
     }
     // tracked engines are handed out before the tasks start (no points inside)
@@ -197,14 +214,31 @@ fn run_case(rt: &tokio::runtime::Runtime, idx: usize, case: &Case, all: &mut Vec
         ctx.rec.push(Event::Tracked { t });
     }
     let mut handles = Vec::new();
+    let cancels: Vec<Arc<tokio::sync::Notify>> = (0..=ntasks).map(|_| Arc::new(tokio::sync::Notify::new())).collect();
     for (i, te) in tes.into_iter().enumerate() {
         let t = i + 1;
         let (ctl, ctx, h) = (ctl.clone(), ctx.clone(), rt.handle().clone());
         let root = case.roots[i];
+        let cancel = cancels[t].clone();
         handles.push(std::thread::Builder::new().name(format!("vh_task_{t}")).spawn(move || {
             TASK.with(|c| c.set(t));
-            let v = h.block_on(query_node(&ctx, &te, root - 1));
-            ctx.rec.push(Event::Query { t, n: root, v });
+            // the request can be abandoned: its future dropped (cancel) or unwound by an executor panic
+            let r = std::panic::catch_unwind(std::panic::AssertUnwindSafe(|| {
+                h.block_on(async {
+                    tokio::select! {
+                        v = query_node(&ctx, &te, root - 1) => Some(v),
+                        () = cancel.notified() => None,
+                    }
+                })
+            }));
+            match r {
+                Ok(Some(v)) => ctx.rec.push(Event::Query { t, n: root, v }),
+                Ok(None) => ctx.rec.push(Event::Cancel { n: root, polls: 0 }),
+                Err(_) => {
+                    ctx.rec.push(Event::QueryPanic { t, n: root });
+                    ctx.rec.push(Event::Disarm);
+                }
+            }
             TASK.with(|c| c.set(usize::MAX));
             drop(te);
             ctx.rec.push(Event::Drop { t });
@@ -227,6 +261,22 @@ fn run_case(rt: &tokio::runtime::Runtime, idx: usize, case: &Case, all: &mut Vec
     }
     if drift.is_null() && !blocked {
         for (k, st) in case.steps.iter().enumerate() {
+            match st.a.as_str() {
+                "AbandonCancel" => {
+                    ctl.abandon(st.t, 2);
+                    cancels[st.t].notify_one();
+                }
+                "AbandonPanic" => {
+                    // the executor the task is suspended in (the top frame of the model) panics
+                    let top = match &ctl.st.lock().at[st.t] {
+                        Some(Reached::Point(_, q)) => *q,
+                        _ => 0,
+                    };
+                    ctx.rec.push(Event::Arm { n: top });
+                    ctl.abandon(st.t, 1);
+                }
+                _ => {}
+            }
             ctl.grant(st.t);
             let want = if st.pc == "done" { Reached::Done } else { Reached::Point(st.pc.clone(), st.q) };
             match ctl.wait_for(st.t) {
@@ -279,6 +329,15 @@ fn run_case(rt: &tokio::runtime::Runtime, idx: usize, case: &Case, all: &mut Vec
 }
 
 fn main() {
+    // injected executor panics are part of the schedules: keep stderr readable
+    let default_hook = std::panic::take_hook();
+    std::panic::set_hook(Box::new(move |info| {
+        let msg = info.payload().downcast_ref::<String>().cloned()
+            .or_else(|| info.payload().downcast_ref::<&str>().map(|s| (*s).to_string())).unwrap_or_default();
+        if !msg.starts_with("vh: injected") {
+            default_hook(info);
+        }
+    }));
     let a = args();
     let input = arg_str(&a, "in", "");
     let out = arg_str(&a, "out", "/dev/null");
